@@ -74,7 +74,8 @@ def sim_monitor(case):
 
 
 def sim_strip(c):
-    return {'gpus': c['gpus'], 'freq': c['freq'], 'kernels': c['kernels'], **({'tag': c['tag']} if c.get('tag') else {})}
+    return {'gpus': c['gpus'], 'freq': c['freq'], 'kernels': c['kernels'], **({'tag': c['tag']} if c.get('tag') else {}),
+            **({'via_files': True} if c.get('via_files') else {})}
 
 
 def sim_nontrivial(c):
@@ -234,9 +235,11 @@ def main(argv):
                                + len({vlib.case_hash(c['kernel']) for c in trace_cases if T.nontrivial(c)}),
         'rule': 'sim: 1-4 devices x 1-8 SMs x 1-8 sub-cores in four profiles (small 1-3x1-4x1-4; wide: 5-8 sub-cores per SM with blocks of 5-12 warps '
                 'and more blocks than SMs; many: 5-8 SMs per device with 9-14 blocks per kernel; mixed: anything up to 4x8x8); per-device shapes differ in 2/3 of the cases, 1-3 kernels, ragged blocks/warps, '
+                'every fifth case loads its kernels from printed trace files through BenchmarkBuilder with >= 4 launches that all share the launch configuration and one of two kernel names (bodies differ); '
                 'every third case with 0-instruction warps / 0-warp blocks / 0-block kernels, both clock configurations (components 1 Hz with 1 GHz '
                 'connections as nvidia.go, and all 1 GHz); non-trivial = at least 2 thread blocks and 3 warps on at least 2 sub-cores. '
-                'trace: streams valid / wide (beyond field widths, unknown registers) / lines (damaged files); non-trivial = has a memory instruction or is a raw-lines case',
+                'trace: every ~12th case is a group of 3-5 kernel files of ONE directory (shared name + launch configuration, different bodies, Memcpy lines in between) read one after another and re-read in reverse order in the same process; '
+                'streams valid / wide (beyond field widths, unknown registers) / lines (damaged files); non-trivial = has a memory instruction or is a raw-lines case',
         'sim_cases': len(sim_cases), 'trace_cases': len(trace_cases),
         'engine_events_replayed': sum(c.get('nevents', 0) for c in sim_cases),
         'event_histogram': dict(ev_hist),
@@ -247,6 +250,8 @@ def main(argv):
         'max_warps_per_block': max([len(b) for c in sim_cases for k in c['kernels'] for b in k] or [0]),
         'degenerate_sim_cases': sum(1 for c in sim_cases if any(len(k) == 0 or any(len(b) == 0 or 0 in b for b in k) for k in c['kernels'])),
         'full_buffer_cases': sum(1 for c in sim_cases if any(4 in st['bufs'] for st in c.get('final', [])) or c.get('tag') == 'full'),
+        'sim_cases_via_trace_files': sum(1 for c in sim_cases if c.get('via_files')),
+        'trace_directory_groups': len({(c['kernel'].get('group'), c['kernel'].get('gsize')) for c in trace_cases if c['kernel'].get('group')}),
         'trace_streams': dict(collections.Counter(c['kernel'].get('tag', '?') for c in trace_cases)),
         'model_mismatches': len(mism1) + len(mism2), 'monitor_failures': len(sim_bad) + len(trace_bad),
     })
@@ -268,9 +273,23 @@ def main(argv):
                        'replay_cmd': './check C20 --replay <this file>'}, text=what)
     elif trace_bad:
         i, msg = trace_bad[0]
-        c = dict(trace_cases[i])
-        c.pop('coq', None)
-        rep.violation({'property': PROP, 'part': 'trace', 'what': msg, 'case': c,
+        # kernel files of one trace directory are read in one process: keep the files read before the failing one
+        lo = i
+        while lo > 0 and trace_cases[i]['kernel'].get('group') and \
+                trace_cases[lo - 1]['kernel'].get('group') == trace_cases[i]['kernel'].get('group') and \
+                trace_cases[lo - 1]['kernel'].get('gpos', 0) == trace_cases[lo]['kernel'].get('gpos', 0) - 1:
+            lo -= 1
+        hi = i
+        while lo < i and hi + 1 < len(trace_cases) and trace_cases[hi + 1]['kernel'].get('group') == trace_cases[i]['kernel'].get('group') \
+                and trace_cases[hi + 1]['kernel'].get('gpos', 0) == trace_cases[hi]['kernel'].get('gpos', 0) + 1:
+            hi += 1
+        grp = []
+        for c in trace_cases[lo:hi + 1]:
+            c = dict(c)
+            c.pop('coq', None)
+            grp.append(c)
+        rep.violation({'property': PROP, 'part': 'trace', 'what': msg, 'failing_file': i - lo,
+                       **({'case': grp[0]} if len(grp) == 1 else {'cases': grp}),
                        'replay_cmd': './check C20 --replay <this file>'}, text=msg)
     elif mism1 or not ok1:
         i, k = mism1[0] if mism1 else (0, 0)
